@@ -19,9 +19,12 @@ use serde_json::{Value, json};
 
 use crate::common::*;
 
+static COMPOSITE: std::sync::atomic::AtomicBool = std::sync::atomic::AtomicBool::new(false);
+
 pub const MSCHEMA: &str = r#"
 CREATE TABLE IF NOT EXISTS ma (id INTEGER NOT NULL PRIMARY KEY, x INTEGER);
 CREATE TABLE IF NOT EXISTS mb (id INTEGER NOT NULL PRIMARY KEY, aid INTEGER NOT NULL DEFAULT 0, y INTEGER);
+CREATE TABLE IF NOT EXISTS mc (a INTEGER NOT NULL, b TEXT NOT NULL, x INTEGER, PRIMARY KEY (a, b));
 "#;
 
 pub fn query_of(kind: &str) -> &'static str {
@@ -30,6 +33,8 @@ pub fn query_of(kind: &str) -> &'static str {
         "expr" => "SELECT id, x * 2 + 1 AS d FROM ma",
         "inner" => "SELECT ma.id, mb.id, ma.x, mb.y FROM ma JOIN mb ON mb.aid = ma.id",
         "left" => "SELECT ma.id, ma.x, mb.y FROM ma LEFT JOIN mb ON mb.aid = ma.id",
+        "composite" => "SELECT a, b, x FROM mc WHERE x IS NULL OR x < 3",
+        "compjoin" => "SELECT mc.a, mc.b, mc.x, ma.x FROM mc JOIN ma ON ma.id = mc.a",
         _ => "SELECT id, x FROM ma",
     }
 }
@@ -44,7 +49,25 @@ fn vjson(v: &SqliteValue) -> Value {
     }
 }
 
+fn rand_stmt_c(rng: &mut SmallRng) -> Statement {
+    let a = SqliteParam::Integer(rng.random_range(1..=2i64));
+    let b = SqliteParam::Text(["p", "q"][rng.random_range(0..2usize)].into());
+    let v = match rng.random_range(0..=4i64) {
+        0 => SqliteParam::Null,
+        n => SqliteParam::Integer(n),
+    };
+    match rng.random_range(0..5) {
+        0 | 1 => Statement::WithParams("INSERT INTO mc (a, b, x) VALUES (?, ?, ?) ON CONFLICT (a, b) DO UPDATE SET x = excluded.x".into(), vec![a, b, v]),
+        2 => Statement::WithParams("DELETE FROM mc WHERE a = ? AND b = ?".into(), vec![a, b]),
+        3 => Statement::WithParams("UPDATE mc SET x = ? WHERE a = ?".into(), vec![v, a]),
+        _ => Statement::WithParams("DELETE FROM mc WHERE b = ?".into(), vec![b]),
+    }
+}
+
 fn rand_stmt(rng: &mut SmallRng, nk: i64) -> Statement {
+    if COMPOSITE.load(std::sync::atomic::Ordering::Relaxed) && rng.random_range(0..3) > 0 {
+        return rand_stmt_c(rng);
+    }
     let k = rng.random_range(1..=nk);
     // a third of the written values are NULL
     let v = match rng.random_range(0..=4i64) {
@@ -63,6 +86,7 @@ fn rand_stmt(rng: &mut SmallRng, nk: i64) -> Statement {
 
 pub async fn run(seed: u64, kind: &str, bursts: usize, out_path: &str) -> eyre::Result<()> {
     let mut rng = SmallRng::seed_from_u64(seed);
+    COMPOSITE.store(kind.starts_with("comp"), std::sync::atomic::Ordering::Relaxed);
     let nk = 3i64;
     let dir = fresh_dir("matchA");
     let conf = make_conf(&dir)?;
